@@ -27,8 +27,28 @@ def reset():
 
 
 def rebind(name, ident):
-    """the dotted name now resolves to a (new) factory object carrying this id"""
-    globals()[name[len(MODULE):]] = _mk(name, ident)
+    """the dotted name now resolves to the factory object carrying this id: the VERY SAME object as before when the
+    id is the one already bound (re-registering an unchanged factory under other hints -- identity matters to code
+    that short-cuts on `is`), a new object otherwise"""
+    attr = name[len(MODULE):]
+    cur = globals().get(attr)
+    if cur is not None and getattr(cur, '_c18_id', None) == ident:
+        return cur
+    globals()[attr] = f = _mk(name, ident)
+    return f
+
+
+class ObjCache:
+    """per-case objects by (name, id): the same id under the same name = the very same deriver / predicate object"""
+
+    def __init__(self, mk):
+        self.mk, self.d = mk, {}
+
+    def get(self, name, ident):
+        k = (name, ident)
+        if k not in self.d:
+            self.d[k] = self.mk(name, ident)
+        return self.d[k]
 
 
 reset()
